@@ -55,7 +55,7 @@ class Real:
             return classify(e)
 
     def canon(self, inst):
-        return G.val_of_expr(self.t, inst.to_micheline_value(mode='legacy_optimized', lazy_diff=None))
+        return G.val_of_expr(self.t, inst.to_micheline_value(mode='legacy_optimized', lazy_diff=None), inst)
 
     def to_py(self, inst, comparable=False):
         try:
@@ -75,6 +75,76 @@ class Real:
         if p2k is None:
             return 'tuple', [idx[i] for i in range(len(idx))]
         return 'dict', list(p2k.items())
+
+
+_FACTS = {}
+
+
+def fact(text):
+    """`<texthex>:<mask>:<rawhex|->`: what the library's own base58 helpers say about a string (the `valid` / `raw` parameters
+    of the model; base58 itself is C09's)"""
+    if text not in _FACTS:
+        from pytezos.crypto import encoding as E
+        mask = ''.join('1' if f(text) else '0' for f in (E.is_address, E.is_pkh, E.is_public_key, E.is_sig, E.is_chain_id))
+        try:
+            raw = E.base58_decode(text.encode()).hex() or '-'
+        except Exception:
+            raw = '-'
+        _FACTS[text] = f"{text.encode().hex() or '-'}:{mask}:{raw}"
+    return _FACTS[text]
+
+
+def code_facts(code):
+    """`c:<codehex>:<texthex>`: the source text of a lambda body (the `codeText` parameter of the model; formatting is C18's)"""
+    import json
+    from pytezos.michelson.format import micheline_to_michelson
+    return f"c:{code.encode().hex()}:{micheline_to_michelson(json.loads(code)).encode().hex() or '-'}"
+
+
+def parse_facts(text):
+    """`p:<texthex>:<codehex>`: what a text parses and normalises to as a lambda body, nothing when that raises (`codeOfText`)"""
+    from pytezos.michelson.micheline import Micheline
+    from pytezos.michelson.parse import michelson_to_micheline
+    try:
+        e = michelson_to_micheline(text)
+        assert isinstance(e, list)
+        return [f"p:{text.encode().hex() or '-'}:{G.code_text(Micheline.match(e).as_micheline_expr()).encode().hex()}"]
+    except Exception:
+        return []
+
+
+def with_facts(line, t):
+    """the protocol line, followed by what the library says about every string / lambda body it mentions (only for types with
+    a base58 leaf, a contract, a ticket or a lambda)"""
+    subs = list(G.subterms(t))
+    b58 = any((x[0] == 's' and x[2] in G.B58) or x[0] in 'ck' for x in subs)
+    lam = any(x[0] == 'f' for x in subs)
+    if not b58 and not lam:
+        return line
+    texts, codes = [], []
+    for tok in line.split(' '):
+        if len(tok) > 2 and tok[0] in 'sfK' and all(c_ in '0123456789abcdef' for c_ in tok[1:]) and len(tok) % 2 == 1:
+            try:
+                (codes if tok[0] == 'f' else texts).append(bytes.fromhex(tok[1:]).decode())
+            except ValueError:
+                pass
+    out = []
+    if b58:
+        seen = []
+        for x in texts + [ORIGINATED0]:
+            for y in (x, x.partition('%')[0]):
+                if y not in seen and len(y) < 200 and ' ' not in y and '|' not in y:
+                    seen.append(y)
+        out += [fact(x) for x in seen]
+    if lam:
+        out += [code_facts(x) for x in dict.fromkeys(codes)]
+        if line.startswith('ofpy '):
+            for x in dict.fromkeys(texts):
+                out += parse_facts(x)
+    return line + ' | ' + ' '.join(out)
+
+
+ORIGINATED0 = 'KT1BEqzn5Wx8uJrZNvuS9DVHmLvG9td3fDLi'     # get_originated_address(0), compared with the real function in run()
 
 
 def show(x, toks):
@@ -188,6 +258,11 @@ def shrink(t, v, fails):
                     yield (k, t[1], a), ('J', x)
             elif t[2] != ('s', G.NOANN, 'unit'):
                 yield (k, t[1], ('s', G.NOANN, 'unit')), v
+        elif k == 'k':
+            yield G.with_ann(t[2], t[1]), v[2]                      # the contents alone
+            for a, x in cands(t[2], v[2]):
+                if a[1][0] is None:
+                    yield (k, t[1], a), ('K', v[1], x, v[3])
         elif k in 'lS':
             xs = v[1]
             for i in range(len(xs)):
@@ -255,6 +330,9 @@ CORPUS = [
     (('m', G.NOANN, ('p', G.NOANN, ('s', ('owner', None), 'string'), ('o', G.NOANN, ('s', G.NOANN, 'nat'), ('s', G.NOANN, 'string'))), ('l', G.NOANN, ('s', G.NOANN, 'nat'))),
      ('m', [(('P', ('s', 'a'), ('L', ('I', 1))), ('l', [('I', 1)])), (('P', ('s', 'a'), ('R', ('s', 'z'))), ('l', []))])),
     (('O', G.NOANN, ('s', G.NOANN, 'unit')), ('J', ('U',))),
+    # the nested-option class inside a ticket (shrinks to the known `option (option unit)` input)
+    (('k', G.NOANN, ('O', G.NOANN, ('O', G.NOANN, ('s', G.NOANN, 'nat')))), ('K', 'tz1KjV2FmM27uiyejy9vBeYS3VaVN682Uso5', ('J', ('N',)), 1)),
+    (('k', G.NOANN, ('p', G.NOANN, ('s', G.NOANN, 'nat'), ('s', G.NOANN, 'nat'))), ('K', 'KT1BEqzn5Wx8uJrZNvuS9DVHmLvG9td3fDLi', ('P', ('I', 1), ('I', 2)), 10)),
     (('p', G.NOANN, ('s', ('', None), 'nat'), ('s', (None, 't'), 'nat')), ('P', ('I', 1), ('I', 2))),
     # former collision shapes (fixes/C12-1): declared before / after, pair / or, :type name, the first way out taken as well, nested
     (('o', G.NOANN, ('s', ('string_1', None), 'nat'), ('s', G.NOANN, 'string')), ('R', ('s', 'a'))),
@@ -288,6 +366,8 @@ def gen_cases(ctx):
                 t, origin = t2, 'random-lookalike'
         if rng.random() < 0.15:
             t = G.with_ann(t, G.rand_ann(rng, 0.5, 0.3))
+        if not G.inhabited(t):
+            continue
         for _ in range(rng.choice([1, 1, 2])):
             cases.append((origin, t, G.rand_value(rng, t)))
     return cases
@@ -296,19 +376,35 @@ def gen_cases(ctx):
 def run(ctx):
     st = extract.generate(PROP)
     ctx.prepare_lean(st)
-    ctx.extra['rule'] = ('random types to depth 4 over unit/bool/nat/int/mutez/timestamp/string/bytes, pair, or (incl. enums), option, list, set, '
+    ctx.extra['rule'] = ('random types to depth 4 over unit/bool/nat/int/mutez/timestamp/string/bytes, address/key_hash/key/signature/chain_id '
+                         '(valid base58 texts of every prefix: tz1-tz4, KT1, sr1 with and without %entrypoint, edpk/sppk/p2pk/BLpk, edsig/spsig/p2sig/sig/BLsig, Net; '
+                         'all-zero / all-0xff / mixed payloads), contract p, ticket t (t comparable), lambda, bls12_381_fr/g1/g2, never (only where the type stays inhabited), pair, or (incl. enums), option, list, set, '
                          'map, big_map with %field / :type names from a pool that contains duplicates, empty names and generated-looking names '
                          '(`nat_1`, `pair_0`, ...); about a third of the types with a pair / union node get a deliberate former collision shape '
                          '(a declared name equal to the `prim_j` another leaf of the same layout would be generated: declared before or after it, '
                          'pair or union, root or nested node, %field or :type, sometimes `prim_j_` declared as well); random values (sets / maps '
-                         'sorted, big_map literal or id); non-trivial = type has a pair, union or collection')
+                         'sorted in the library\'s own order of the key type, big_map literal or id); non-trivial = type has a pair, union or collection.  '
+                         'Leaf-form stream: every accepted and many refused input forms of each leaf (int / RFC 3339 text with offsets and fractions / '
+                         'decimal text for timestamp; int / Decimal / text incl. exponents, NaN, Infinity, >28 digits for mutez; bytes / hex text with '
+                         '0x, upper case, white space for bytes and bls12_381; int / little-endian bytes / hex for bls12_381_fr; base58 text, %default, '
+                         'broken checksum, wrong kind, bytes for the base58 leaves; None for contract), bare and inside option / list / pair / named pair / '
+                         'union / map / big_map / set, as value and as key')
     ctx.assumptions += [
         'values are those the implementation itself builds from Micheline (from_micheline_value); their Micheline coding is C11',
         'to_python_object is called with lazy_diff=None (what ContractData.decode does): with the default lazy_diff=False a big_map literal '
         'raises "Big_map id is not defined" (API nuance, not counted)',
         'Python set iteration order is modelled as list order; sound when __lt__ is a strict total order on the element type (C03)',
-        'unmodelled Python input shapes (Decimal, timestamp strings, 0x-strings for bytes, bool where int is expected) are not sent',
-        'lambda, contract, ticket, address-like and crypto types are outside the model (their objects are plain strings / source text)',
+        'unmodelled Python input shapes (bool where int is expected; bytes objects for key_hash / key / signature / chain_id, which the code '
+        'stores as they are; number text with `_` or non-ASCII digits / white space; Decimal exponents of more than 5 digits; Decimal as a dict '
+        'key) are not sent, except `1_0` for mutez (answered `unmodelled`, counted)',
+        'base58 validity (`is_address`, `is_pkh`, `is_public_key`, `is_sig`, `is_chain_id`) and `base58_decode` are parameters of the model: each '
+        'protocol line carries what the library says about the strings it mentions (C09 owns base58)',
+        'decimal arithmetic runs in Python\'s default context (prec=28, ROUND_HALF_EVEN), which the mirror follows',
+        'only public keys are sent for `key` (`is_public_key` also passes secret-key texts, on which KeyType.__lt__ raises KeyError)',
+        'lambda bodies are opaque to the model: their source text and what a text parses to are parameters (each protocol line carries the '
+        'library\'s own answers; formatting / parsing is C18), the round-trip theorems assume the law CodeLaw',
+        'try_unpack=True: the base58 texts `blind_unpack` produces and the object of readable PACKed content are parameters of the model (each '
+        'protocol line carries the library\'s own answers); the decision which reading applies is mirrored',
         'ContractEntrypoint.encode/decode is checked on the real code only (composition with C13); the Lean theorem covers ContractData',
     ]
     from pytezos.michelson.types.core import unit as unit_cls
@@ -322,6 +418,11 @@ def run(ctx):
     pair_lt_lex = bool(a < b) and not bool(b < a)
     ctx.extra['tree_flags'] = {'unit_hashable': unit_hashable, 'pair_lt_lexicographic': pair_lt_lex}
 
+    from pytezos.context.abstract import get_originated_address
+    if get_originated_address(0) != ORIGINATED0:
+        ctx.mismatch('originated-address', 'get_originated_address(0)', get_originated_address(0), ORIGINATED0)
+    leaf_stream(ctx)
+    unpack_stream(ctx)
     cases = gen_cases(ctx)
     lines, plan = [], []
     node_seen = {}
@@ -336,12 +437,12 @@ def run(ctx):
             continue
         toks = ' '.join(G.ty_toks(t))
         en = {'origin': origin, 't': t, 'v': v, 'real': real, 'inst': inst, 'i0': len(lines)}
-        lines.append('topy ' + toks + ' ' + ' '.join(G.val_toks(v)))
+        lines.append(with_facts('topy ' + toks + ' ' + ' '.join(G.val_toks(v)), t))
         ok, py = real.to_py(inst)
         en['py'] = (ok, py)
         if ok:
             en['ofpy_line'] = len(lines)
-            lines.append('ofpy ' + toks + ' ' + ' '.join(G.py_toks(py)))
+            lines.append(with_facts('ofpy ' + toks + ' ' + ' '.join(G.py_toks(py)), t))
         en['inv_line'] = len(lines)
         lines.append('inv ' + toks)
         # layouts of every pair / union node of the type (once per distinct node)
@@ -361,13 +462,13 @@ def run(ctx):
                 kinst = kreal.value(kv) if not kreal.err else 'err'
                 if not isinstance(kinst, str):
                     en['keys'].append((kt, kv, kreal, kinst, len(lines)))
-                    lines.append('topyc ' + ' '.join(G.ty_toks(kt)) + ' ' + ' '.join(G.val_toks(kv)))
+                    lines.append(with_facts('topyc ' + ' '.join(G.ty_toks(kt)) + ' ' + ' '.join(G.val_toks(kv)), kt))
         # a malformed / non-canonical object
         if ok and ctx.rng.random() < 0.3:
             bad = mutate_py(ctx.rng, py)
             if bad is not None:
                 en['bad'] = (bad, len(lines))
-                lines.append('ofpy ' + toks + ' ' + ' '.join(G.py_toks(bad)))
+                lines.append(with_facts('ofpy ' + toks + ' ' + ' '.join(G.py_toks(bad)), t))
         plan.append(en)
     model = ctx.model(lines)
     if model and model[0] == 'unrecognised-source':
@@ -535,6 +636,10 @@ def mutate_py(rng, py):
     return None
 
 
+def has_signature(t):
+    return any(x[0] == 's' and x[2] == 'signature' for x in G.subterms(t))
+
+
 def contract_data(ctx, t, v, real, inst, py):
     """ContractData.decode / encode are mutual inverses (on values whose Micheline coding itself round-trips: timestamps kept in range)"""
     from pytezos.context.impl import ExecutionContext
@@ -544,17 +649,21 @@ def contract_data(ctx, t, v, real, inst, py):
     except Exception:
         ctx.count('contract_data', 'not-constructible')
         return
-    m = inst.to_micheline_value(mode='legacy_optimized', lazy_diff=None)
+    # the optimized Micheline form of a signature does not carry its base58 prefix (C11: the text comes back as `sig…`, same
+    # bytes), so types with a signature leaf go through the readable form, which keeps the text
+    mode = 'readable' if has_signature(t) else 'legacy_optimized'
+    m = inst.to_micheline_value(mode=mode, lazy_diff=None)
     tdesc = G.ty_str(t)
     try:
         obj = cd.decode(m)
-        m2 = cd.encode(obj, mode='legacy_optimized')
+        m2 = cd.encode(obj, mode=mode)
         obj2 = cd.decode(m2)
     except Exception as e:
         ctx.violation(f'contract-data-raises[{tdesc} | {G.val_str(v)}]', f'ContractData.decode/encode raised {classify(e)} on a value that converts back', {'type': G.ty_expr(t), 'value': m})
         return
     ctx.count('contract_data', 'checked')
-    if G.val_of_expr(t, m2) != G.val_of_expr(t, m) or G.py_toks(obj2) != G.py_toks(obj) or G.py_toks(obj) != G.py_toks(py):
+    same = (m2 == m) if G.has_instance_leaf(t) else (G.val_of_expr(t, m2) == G.val_of_expr(t, m))
+    if not same or G.py_toks(obj2) != G.py_toks(obj) or G.py_toks(obj) != G.py_toks(py):
         ctx.violation(f'contract-data-not-inverse[{tdesc} | {G.val_str(v)}]', f'{tdesc}: encode(decode(m)) = {m2}, m = {m}', {'type': G.ty_expr(t), 'value': m})
 
 
@@ -574,7 +683,7 @@ def entrypoint_stream(ctx):
         leaves = []
         for nm in names:
             lt = G.rand_type(rng, rng.choice([0, 1, 2]), storage=False)
-            if G.excluded(lt) or lt[0] == 'o':    # union-typed entrypoints (inner nodes) are C13's subject
+            if G.excluded(lt) or lt[0] == 'o' or not G.inhabited(lt):    # union-typed entrypoints (inner nodes) are C13's subject
                 continue
             leaves.append(G.with_ann(lt, (nm, None)))
         if not leaves:
@@ -608,9 +717,10 @@ def entrypoint_stream(ctx):
             ctx.count('entrypoint-stream', 'case')
             try:
                 ep = ContractEntrypoint(ectx, e)
-                params = ep.encode(obj, mode='legacy_optimized')
+                mode = 'readable' if has_signature(pt) else 'legacy_optimized'     # see contract_data
+                params = ep.encode(obj, mode=mode)
                 dec = ep.decode(params['value'], entrypoint=params['entrypoint'])
-                again = ContractEntrypoint(ectx, e).encode(dec[e], mode='legacy_optimized') if isinstance(dec, dict) and e in dec else None
+                again = ContractEntrypoint(ectx, e).encode(dec[e], mode=mode) if isinstance(dec, dict) and e in dec else None
             except Exception as ex:
                 ctx.violation(f'contract-entrypoint-raises[{G.ty_str(pt)} | {e} | {G.val_str(v)}]', f'ContractEntrypoint.encode/decode raised {type(ex).__name__}: {str(ex)[:200]}', desc)
                 continue
@@ -621,3 +731,430 @@ def entrypoint_stream(ctx):
             if not good:
                 ctx.violation(f'contract-entrypoint-not-inverse[{G.ty_str(pt)} | {e} | {G.val_str(v)}]',
                               f'encode -> {params}; decode -> {dec!r}; expected {{{e!r}: {obj!r}}}', desc)
+
+
+# ---------------------------------------------------------------------------------------------- input forms of the leaves
+def _rfc(t):
+    """RFC 3339 text of a unix time, written without pytezos"""
+    import datetime
+    d = datetime.datetime(1970, 1, 1) + datetime.timedelta(seconds=t)
+    return '%04d-%02d-%02dT%02d:%02d:%02dZ' % (d.year, d.month, d.day, d.hour, d.minute, d.second)
+
+
+def _mangle(text):
+    """the same base58 text with one character changed (checksum broken)"""
+    i = len(text) // 2
+    return text[:i] + ('2' if text[i] != '2' else '3') + text[i + 1:]
+
+
+def leaf_forms(rng):
+    """[(scalar / contract type, Python object, expected)]: expected = the value tree the object stands for, 'reject', or None
+    (accepted or not is left to the comparison with the model: context rounding of Decimal, negative zero amounts, fractions of
+    a second).  The meaning is stated here on its own: calendar arithmetic by `datetime`, amounts by `fractions.Fraction`."""
+    from decimal import Decimal
+    from fractions import Fraction
+    P = G.pools()
+    S = lambda sc: ('s', G.NOANN, sc)
+    out = []
+    # ---- timestamp: int, RFC 3339 text, decimal text
+    ts = [0, -1, 1, 1700000000, -62135596800, 253402300799, 951782400, 68169599, rng.randrange(-62135596800, 253402300800), rng.randrange(0, 2 * 10 ** 9)]
+    for t in ts:
+        out.append((S('timestamp'), _rfc(t), ('I', t)))
+        out.append((S('timestamp'), str(t), ('I', t)))
+    t = rng.choice(ts)
+    hh, mm = rng.randrange(0, 24), rng.randrange(0, 60)
+    out.append((S('timestamp'), _rfc(t)[:-1] + '+%02d:%02d' % (hh, mm), ('I', t - hh * 3600 - mm * 60)))
+    out.append((S('timestamp'), _rfc(t)[:-1] + '-%02d:%02d' % (hh, mm), ('I', t + hh * 3600 + mm * 60)))
+    out.append((S('timestamp'), _rfc(t)[:-1] + '.5Z', None))
+    out.append((S('timestamp'), _rfc(t)[:-1] + '.999999999999Z', None))
+    for n in (2 ** 40, -2 ** 40, 253402300800, -62135596801):
+        out.append((S('timestamp'), n, ('I', n)))
+        out.append((S('timestamp'), str(n), ('I', n)))
+    out += [(S('timestamp'), ' 12 ', ('I', 12)), (S('timestamp'), '+7', ('I', 7)), (S('timestamp'), '-5', ('I', -5)), (S('timestamp'), '007', ('I', 7)),
+            (S('timestamp'), '\t3\n', ('I', 3))]
+    for bad in ('x', '', ' ', '2020-13-01T00:00:00Z', '2021-02-29T00:00:00Z', '2020-02-30T00:00:00Z', '1970-01-01t00:00:00z', '1970-01-01T00:00:60Z', '1970-01-01T24:00:00Z',
+                '1970-01-01 00:00:00Z', '1970-01-01T00:00:00', '0000-01-01T00:00:00Z', '1.5', '1e3', '- 5', '0x10', b'\x01', None, (1,)):
+        out.append((S('timestamp'), bad, 'reject'))
+    out.append((S('timestamp'), '2020-02-29T23:59:59Z', ('I', 1583020799)))
+    # ---- mutez: int, Decimal, text (an amount in tez)
+    for n in (0, 1, 2 ** 63 - 1, rng.randrange(10 ** 12)):
+        out.append((S('mutez'), n, ('I', n)))
+    out += [(S('mutez'), 2 ** 63, 'reject'), (S('mutez'), -1, 'reject')]
+    texts = ['0', '1', '1.5', '0.000001', '0.0000019', '1E+3', '1e3', '2.5E-3', '.5', '5.', ' 2 ', '+3', '007.10', '9223372036854.775807', '12345.678901',
+             '%d.%06d' % (rng.randrange(10 ** 6), rng.randrange(10 ** 6)), '%d' % rng.randrange(10 ** 9), '0e5', '0.0', '1_0']
+    for x in texts:
+        want = None
+        if '_' not in x:
+            q = Fraction(x.strip()) * 10 ** 6
+            want = ('I', q.numerator // q.denominator)
+        out.append((S('mutez'), x, want))
+        if '_' not in x:
+            out.append((S('mutez'), Decimal(x), want))
+    for bad in ('9223372036854.775808', '1e30', '-1', '-0.000001', 'NaN', 'nan', 'sNaN', 'Infinity', '-Infinity', 'inf', 'abc', '', ' ', '1e', '--1', '1.2.3', 'e5', '.', '0x10', '1 000', b'\x01', None):
+        out.append((S('mutez'), bad, 'reject'))
+    for bad in ('-1', 'NaN', 'Infinity', '9223372036854.775808'):
+        out.append((S('mutez'), Decimal(bad), 'reject'))
+    for odd in ('-0.0000001', '-0', '0.9999999999999999999999999999999', '1.0000000000000000000000000000001', '123456789012.1234567890123456789012', '0.99999949999999999999999999999999',
+                '2.0000005000000000000000000000000', '2.0000015000000000000000000000000', '0.%s' % ''.join(rng.choice('0123456789') for _ in range(rng.randrange(20, 40)))):
+        out.append((S('mutez'), odd, None))
+        out.append((S('mutez'), Decimal(odd), None))
+    # ---- bytes and the bls12_381 points: bytes, hex text (optional 0x)
+    for sc in ('bytes', 'bls12_381_g1', 'bls12_381_g2'):
+        for b in (b'', b'\x00', b'\x0a\xff', bytes(96), bytes(range(192)), bytes(rng.randrange(256) for _ in range(rng.randrange(1, 8)))):
+            out.append((S(sc), b, ('x', b)))
+            out.append((S(sc), b.hex(), ('x', b)))
+            out.append((S(sc), '0x' + b.hex(), ('x', b)))
+            out.append((S(sc), b.hex().upper(), ('x', b)))
+        out += [(S(sc), '0a ff', ('x', b'\x0a\xff')), (S(sc), '0a\tff\n', ('x', b'\x0a\xff')), (S(sc), ' 0a', ('x', b'\x0a'))]
+        for bad in ('zz', 'abc', '0X0a', '0 a', '0x0x', 'a', 5, None, [1]):
+            out.append((S(sc), bad, 'reject'))
+    # ---- bls12_381_fr: int (any, taken modulo the order), little-endian bytes (at most 32), hex text
+    p = G.FR_MODULUS
+    for n in (0, 1, -1, p - 1, p, p + 5, 2 ** 256, -p - 3, rng.randrange(p), rng.randrange(-10 ** 9, 10 ** 9)):
+        out.append((S('bls12_381_fr'), n, ('I', n % p)))
+    for b in (b'', b'\x01', b'\x01\x00', b'\x00\x01', b'\xff' * 32, bytes(31) + b'\x80', bytes(rng.randrange(256) for _ in range(rng.randrange(1, 33)))):
+        out.append((S('bls12_381_fr'), b, ('I', int.from_bytes(b, 'little') % p)))
+        out.append((S('bls12_381_fr'), '0x' + b.hex(), ('I', int.from_bytes(b, 'little') % p)))
+        out.append((S('bls12_381_fr'), b.hex(), ('I', int.from_bytes(b, 'little') % p)))
+    for bad in (bytes(33), '0x' + '00' * 33, 'zz', None, (1,)):
+        out.append((S('bls12_381_fr'), bad, 'reject'))
+    # ---- base58 leaves: the text itself; an address / contract loses `%default`; anything else is refused
+    for sc in G.B58:
+        for x in rng.sample(P[sc], min(4, len(P[sc]))):
+            out.append((S(sc), x, ('s', x)))
+            if '%' in x:
+                continue
+            out.append((S(sc), _mangle(x), 'reject'))
+            out.append((S(sc), x[:-1], 'reject'))
+            out.append((S(sc), x + '1', 'reject'))
+        for other in G.B58:
+            if other != sc and not (sc == 'address' and other == 'key_hash'):
+                out.append((S(sc), rng.choice([y for y in P[other] if '%' not in y and not (sc == 'key_hash' and y.startswith('tz'))]), 'reject'))
+        for bad in ('', 'tz1', 5, None, ('a',), '%default'):
+            out.append((S(sc), bad, 'reject'))
+    out.append((S('address'), rng.choice(P['key_hash']), None))         # an implicit account is an address too
+    out.append((S('key_hash'), P['address'][-1], 'reject'))
+    out.append((S('address'), P['address'][0].encode(), 'reject'))
+    for ct in (S('address'), ('c', G.NOANN, S('unit')), ('c', G.NOANN, ('p', G.NOANN, S('nat'), S('address')))):
+        for x in rng.sample([y for y in P['address'] if '%' not in y], 3):
+            out.append((ct, x + '%default', ('s', x)))
+            out.append((ct, x + '%', ('s', x + '%')))
+            out.append((ct, x + '%default%x', ('s', x + '%default%x')))
+            out.append((ct, x + '%Default', ('s', x + '%Default')))
+            out.append((ct, x + '%foo', ('s', x + '%foo')))
+            out.append((ct, '%default' + x, 'reject'))
+    for ct in (('c', G.NOANN, S('unit')), ('c', G.NOANN, S('nat'))):
+        out.append((ct, None, ('s', ORIGINATED0)))
+        out.append((ct, rng.choice(P['address']), None))
+        out.append((ct, 7, 'reject'))
+        out.append((ct, rng.choice(P['key']), 'reject'))
+    # ---- ticket: (ticketer, item, amount) — a tuple or a list of exactly three; the item in the key rendering
+    tk = [y for y in P['address'] if '%' not in y]
+    nat = S('nat')
+    for tt, item, iv in ((('k', G.NOANN, nat), 5, ('I', 5)),
+                         (('k', G.NOANN, ('p', G.NOANN, nat, S('string'))), (1, 'a'), ('P', ('I', 1), ('s', 'a'))),
+                         (('k', G.NOANN, ('p', G.NOANN, G.with_ann(nat, ('a', None)), G.with_ann(nat, ('b', None)))), (1, 2), ('P', ('I', 1), ('I', 2))),
+                         (('k', G.NOANN, ('p', G.NOANN, nat, ('p', G.NOANN, nat, nat))), (1, 2, 3), ('P', ('I', 1), ('P', ('I', 2), ('I', 3)))),
+                         (('k', G.NOANN, ('o', G.NOANN, nat, S('bytes'))), ('bytes_1', b'\x01'), ('R', ('x', b'\x01'))),
+                         (('k', G.NOANN, ('O', G.NOANN, S('key_hash'))), None, ('N',)),
+                         (('k', G.NOANN, S('unit')), None, ('U',))):
+        x = rng.choice(tk)
+        amt = rng.choice([0, 1, 2 ** 70])
+        out.append((tt, (x, item, amt), ('K', x, iv, amt)))
+        out.append((tt, [x, item, amt], ('K', x, iv, amt)))
+        out.append((tt, (x + '%default', item, amt), ('K', x, iv, amt)))
+        out.append((tt, (x + '%mint', item, amt), ('K', x + '%mint', iv, amt)))
+        out.append((tt, (x, item), 'reject'))
+        out.append((tt, (x, item, amt, 0), 'reject'))
+        out.append((tt, (x, item, -1), 'reject'))
+        out.append((tt, (_mangle(x), item, amt), 'reject'))
+        out.append((tt, (rng.choice(P['key']), item, amt), 'reject'))
+        out.append((tt, (x, item, 'many'), 'reject'))
+        out.append((tt, {'ticketer': x, 'item': item, 'amount': amt} if item is None or isinstance(item, (int, str)) else 7, 'reject'))
+        if isinstance(item, tuple) and len(item) > 1 and tt[2][0] == 'p':
+            out.append((tt, (x,) + item + (amt,), 'reject'))           # the item's fields spread out: not what to_python_object shows
+    # ---- lambda: Michelson source text of the body
+    for code, src in zip(G.code_pool(), G.CODE_SOURCES):
+        lt = ('f', G.NOANN, nat, nat)
+        out.append((lt, src, ('f', code)))
+        out.append((lt, ' ' + src.replace(' ; ', ';') + '\n', None))
+    for bad in (5, None, b'{}', ['DUP'], ('{}',)):
+        out.append((('f', G.NOANN, nat, S('unit')), bad, 'reject'))
+    for odd in ('DUP', '', '{ DUP', '{ NOSUCHPRIM }', '{ DUP ; }', '{ DUUP }', '{ IF_SOME { DROP } { } }', 'Unit', '"a"', '{ PUSH nat }', '(Pair 1 2)', '{ dup }'):
+        out.append((('f', G.NOANN, nat, nat), odd, None))
+    # ---- unit, never
+    from pytezos.michelson.types.core import Unit
+    out += [(S('unit'), None, ('U',)), (S('unit'), Unit, ('U',)), (S('unit'), 0, 'reject'), (S('unit'), 'Unit', 'reject'),
+            (S('never'), None, 'reject'), (S('never'), Unit, 'reject'), (S('never'), 0, 'reject')]
+    return out
+
+
+def wrap_form(rng, t, obj, want):
+    """put a leaf form inside an option / list / pair / map / big_map / set (as a key too, where the type is comparable and the
+    object hashable): (type, object, expected)"""
+    comparable = t[0] == 's' and t[2] in G.COMPARABLE
+    try:
+        hash(obj)
+        hashable = True
+    except TypeError:
+        hashable = False
+    nat = ('s', G.NOANN, 'nat')
+    choices = ['id', 'id', 'option', 'list', 'pair', 'named-pair', 'map-value', 'big_map-value', 'or']
+    if comparable and hashable:
+        choices += ['set', 'map-key', 'big_map-key', 'pair-key']
+    k = rng.choice(choices)
+    W = (lambda f: want if want in ('reject', None) else f(want))
+    if k == 'id':
+        return t, obj, want
+    if k == 'option':
+        return ('O', G.NOANN, t), obj, (want if obj is None and t[2] not in ('unit',) and t[0] == 's' else W(lambda w: ('J', w))) if not (obj is None) else None
+    if k == 'list':
+        return ('l', G.NOANN, t), [obj], W(lambda w: ('l', [w]))
+    if k == 'pair':
+        return ('p', G.NOANN, t, nat), (obj, 7), W(lambda w: ('P', w, ('I', 7)))
+    if k == 'named-pair':
+        return ('p', G.NOANN, G.with_ann(t, ('x', None)), G.with_ann(nat, ('n', None))), {'n': 7, 'x': obj}, W(lambda w: ('P', w, ('I', 7)))
+    if k == 'or':
+        return ('o', G.NOANN, G.with_ann(nat, ('a', None)), G.with_ann(t, ('b', None))), {'b': obj}, W(lambda w: ('R', w))
+    if k == 'map-value':
+        return ('m', G.NOANN, nat, t), {3: obj}, W(lambda w: ('m', [(('I', 3), w)]))
+    if k == 'big_map-value':
+        return ('b', G.NOANN, nat, t), {3: obj}, W(lambda w: ('b', [(('I', 3), w)]))
+    if k == 'set':
+        return ('S', G.NOANN, t), [obj], W(lambda w: ('S', [w]))
+    if k == 'map-key':
+        return ('m', G.NOANN, t, nat), {obj: 3}, W(lambda w: ('m', [(w, ('I', 3))]))
+    if k == 'big_map-key':
+        return ('b', G.NOANN, t, nat), {obj: 3}, W(lambda w: ('b', [(w, ('I', 3))]))
+    return ('m', G.NOANN, ('p', G.NOANN, t, nat), nat), {(obj, 1): 3}, W(lambda w: ('m', [(('P', w, ('I', 1)), ('I', 3))]))
+
+
+def leaf_stream(ctx):
+    """from_python_object on every accepted input form of the leaves (and on refused ones), bare and inside containers: the real
+    classes against the Lean mirror, and against the meaning stated in `leaf_forms`"""
+    rng = ctx.rng
+    forms = leaf_forms(rng)
+    if ctx.tier != 'quick':
+        for _ in range(5):
+            forms += leaf_forms(rng)
+    plan, lines = [], []
+    for t0, obj0, want0 in forms:
+        for rep in range(2):
+            t, obj, want = (t0, obj0, want0) if rep == 0 else wrap_form(rng, t0, obj0, want0)
+            real = Real(t)
+            if real.err:
+                ctx.count('leaf-forms', 'type-rejected')
+                continue
+            try:
+                toks = G.py_toks(obj)
+            except ValueError:
+                continue
+            plan.append((t, obj, want, real, len(lines)))
+            lines.append(with_facts('ofpy ' + ' '.join(G.ty_toks(t)) + ' ' + ' '.join(toks), t))
+    model = ctx.model(lines)
+    if model and model[0] == 'unrecognised-source':
+        model = None
+    for t, obj, want, real, idx in plan:
+        desc = {'type': G.ty_str(t), 'object': repr(obj)[:160]}
+        ctx.case(desc, nontrivial=True)
+        leaf = next(x for x in G.subterms(t) if x[0] in 'sckf' and not (x == ('s', G.NOANN, 'nat') and t[0] != 's'))
+        ctx.count('leaf-forms', G.prim(leaf) + ':' + type(obj).__name__ + ':' + ('reject' if want == 'reject' else 'meaning' if want else 'model-only'))
+        back = real.of_py(obj)
+        got = show(back, G.val_toks)
+        if model is not None:
+            m = model[idx]
+            if m == 'unmodelled':
+                ctx.count('leaf-forms', 'unmodelled')
+            elif not (got.startswith('err:') and m.startswith('err:')) and got != m:
+                ctx.mismatch('from-python-object-leaf-forms', desc, got, m)
+        key = f'{G.ty_str(t)} | {obj!r}'[:200]
+        if want == 'reject' and not isinstance(back, str):
+            ctx.violation(f'leaf-form-accepted[{key}]', f'{G.ty_str(t)}: from_python_object({obj!r}) = {G.val_str(back)} (expected a refusal)', {'type': G.ty_expr(t), 'object': repr(obj)})
+        elif want not in ('reject', None) and back != want:
+            ctx.violation(f'leaf-form-meaning[{key}]', f'{G.ty_str(t)}: from_python_object({obj!r}) = {got if isinstance(back, str) else G.val_str(back)} '
+                          f'(expected {G.val_str(want)})', {'type': G.ty_expr(t), 'object': repr(obj)})
+        elif want not in ('reject', None):
+            # object -> value -> object -> value: the object a value is shown as converts back to it
+            inst = real.cls.from_python_object(obj)
+            ok, py = real.to_py(inst)
+            if not ok or real.of_py(py) != want:
+                ctx.violation(f'leaf-form-roundtrip[{key}]', f'{G.ty_str(t)}: {obj!r} -> value -> {py!r} does not convert back to the value', {'type': G.ty_expr(t), 'object': repr(obj)})
+
+
+# ---------------------------------------------------------------------------------------------- try_unpack=True
+def unpack_facts(data):
+    """what the library says about one bytes value, for the `b58` / `unpackMich` parameters of the model: every base58 text
+    `blind_unpack` could ask for, and the object of the PACKed content if `unforge_micheline` reads it"""
+    from pytezos.crypto.encoding import base58_encode
+    from pytezos.michelson.forge import unforge_micheline
+    from pytezos.michelson.micheline import micheline_value_to_python_object
+    cands = [(b'Net', data), (b'sig', data), (b'BLsig', data)]
+    for pre in (b'tz1', b'tz2', b'tz3', b'tz4'):
+        cands += [(pre, data[1:]), (pre, data[2:])]
+    for pre in (b'KT1', b'txr1', b'sr1'):
+        cands.append((pre, data[1:-1]))
+    for pre in (b'edpk', b'sppk', b'p2pk', b'BLpk'):
+        cands.append((pre, data[1:]))
+    out = []
+    for pre, pl in cands:
+        try:
+            tx = base58_encode(pl, pre).decode()
+        except ValueError:
+            continue
+        out.append(f"e:{pre.hex()}:{pl.hex() or '-'}:{tx.encode().hex()}")
+    if data[:1] == b'\x05':
+        try:
+            o = micheline_value_to_python_object(unforge_micheline(data[1:]))
+            out.append('u:' + (data[1:].hex() or '-') + ':' + '~'.join(G.py_toks(o)))
+        except Exception:
+            pass          # not readable: blind_unpack has to go on to the next reading
+    return out
+
+
+PACKED = [   # hand-made PACKed data and what it shows as
+    (bytes.fromhex('050100000003616263'), 'abc'),
+    (bytes.fromhex('05002a'), 42),
+    (bytes.fromhex('050041'), -1),
+    (bytes.fromhex('0507070001000200'[:14]), (1, 2)),
+    (bytes.fromhex('05070701000000016100ff01'), ('a', -127)),
+    (bytes.fromhex('050a00000001ff'), b'\xff'),
+    (bytes.fromhex('050a0000000161'), 'a'),
+    (bytes.fromhex('05030b'), 'Unit'),
+    (bytes.fromhex('050200000000'), '{}'),
+]
+
+
+def rand_bytes_for_unpack(rng):
+    k = rng.randrange(8)
+    if k == 0:
+        return rng.choice(PACKED)[0]
+    if k == 1:     # text
+        return rng.choice(['', 'a', 'hello', 'é', '\x05x', 'tz1', '\x00', 'ab\ncd', '€uro', '\U0001f600']).encode()
+    if k == 2:     # broken UTF-8 / surrogates / overlong
+        return rng.choice([b'\xff', b'\xc3', b'\xc0\x80', b'\xed\xa0\x80', b'\xf4\x90\x80\x80', b'\xe2\x82', b'a\x80', b'\xf0\x9f\x98'])
+    n = rng.choice([0, 1, 2, 3, 4, 5, 6, 8, 20, 21, 22, 23, 30, 32, 33, 34, 48, 49, 50, 63, 64, 65, 95, 96, 97])
+    b = bytes(rng.randrange(256) if rng.random() < 0.6 else rng.choice([0, 1, 2, 3, 5, 7, 10, 97, 255]) for _ in range(n))
+    if k == 3 and n:           # a forged address / key shape
+        b = bytes([rng.choice([0, 0, 1, 2, 3, 4])]) + b[1:]
+        if rng.random() < 0.5:
+            b = b[:-1] + b'\x00'
+        if rng.random() < 0.4 and n > 1:
+            b = b[:1] + bytes([rng.choice([0, 1, 2, 3, 4])]) + b[2:]
+    if k == 4:                 # looks PACKed
+        b = b'\x05' + b
+    if k == 5:                 # PACKed data cut short / with a tail
+        p_ = rng.choice(PACKED)[0]
+        b = p_[:rng.randrange(1, len(p_))] if rng.random() < 0.5 else p_ + bytes([rng.randrange(256)])
+    return b
+
+
+def bytes_leaves(t, v):
+    if t[0] == 's':
+        return [v[1]] if t[2] == 'bytes' else []
+    if t[0] in 'cf' or v[0] in 'NB':
+        return []
+    if t[0] == 'k':
+        return bytes_leaves(t[2], v[2])
+    if t[0] == 'p':
+        return bytes_leaves(t[2], v[1]) + bytes_leaves(t[3], v[2])
+    if t[0] == 'o':
+        return bytes_leaves(t[2] if v[0] == 'L' else t[3], v[1])
+    if t[0] == 'O':
+        return bytes_leaves(t[2], v[1])
+    if t[0] in 'lS':
+        return [b for x in v[1] for b in bytes_leaves(t[2], x)]
+    return [b for k_, x in v[1] for b in bytes_leaves(t[2], k_) + bytes_leaves(t[3], x)]
+
+
+def unpack_all(o, unpack):
+    """the object with every bytes object in it (dict keys too) replaced by what `unpack` shows it as"""
+    if isinstance(o, bytes):
+        return unpack(o)
+    if isinstance(o, tuple):
+        return tuple(unpack_all(x, unpack) for x in o)
+    if isinstance(o, list):
+        return [unpack_all(x, unpack) for x in o]
+    if isinstance(o, dict):
+        return {unpack_all(k, unpack): unpack_all(x, unpack) for k, x in o.items()}
+    return o
+
+
+def unpack_stream(ctx):
+    """`blind_unpack` on bytes of every interesting length / tag (the real function against the mirror `blindUnpack`; it must
+    return — the value itself when nothing reads it — and show hand-made PACKed data as its content), and
+    `to_python_object(try_unpack=True)` of composite values with bytes leaves against the mirror"""
+    from pytezos.michelson.micheline import blind_unpack
+    rng = ctx.rng
+    n = 600 if ctx.tier == 'quick' else 20000
+    datas = [d for d, _ in PACKED] + [b'\x05', b'\x05\x03\xaf', b'', b'\x05\x00', b'\x05\x02\x00\x00\x00\x05', b'\x05\x01\x00\x00\x00\x01\xff']
+    while len(datas) < n:
+        datas.append(rand_bytes_for_unpack(rng))
+    lines = ['unpack ' + (d.hex() or '-') + ' | ' + ' '.join(unpack_facts(d)) for d in datas]
+    # composite values
+    comp = []
+    m = 150 if ctx.tier == 'quick' else 5000
+    tries = 0
+    while len(comp) < m and tries < 40 * m:
+        tries += 1
+        t = G.rand_type(rng, rng.choice([1, 2, 2, 3]), p_field=0.5)
+        if not G.inhabited(t) or not any(x == ('s', x[1], 'bytes') for x in G.subterms(t) if x[0] == 's'):
+            continue
+        v = G.rand_value(rng, t)
+        # put interesting bytes into the leaves
+        leaves = bytes_leaves(t, v)
+        if not leaves:
+            continue
+        real = Real(t)
+        if real.err:
+            continue
+        inst = real.value(v)
+        if isinstance(inst, str):
+            continue
+        facts = []
+        for b in leaves:
+            facts += unpack_facts(b)
+        comp.append((t, v, real, inst, len(lines)))
+        ln = with_facts('topyu ' + ' '.join(G.ty_toks(t)) + ' ' + ' '.join(G.val_toks(v)), t)
+        lines.append(ln + (' ' if ' | ' in ln else ' | ') + ' '.join(dict.fromkeys(facts)))
+    model = ctx.model(lines)
+    if model and model[0] == 'unrecognised-source':
+        model = None
+    want = dict(PACKED)
+    for i, d in enumerate(datas):
+        desc = {'blind_unpack': d.hex()}
+        ctx.case(desc, nontrivial=True)
+        try:
+            r = blind_unpack(d)
+            got = ' '.join(G.py_toks(r))
+        except Exception as e:
+            r, got = e, 'raises:' + type(e).__name__
+        ctx.count('blind_unpack', type(r).__name__ if not isinstance(r, Exception) else 'raises')
+        if model is not None and model[i] != got:
+            ctx.mismatch('blind-unpack', desc, got, model[i])
+        if isinstance(r, Exception):
+            ctx.violation(f'blind-unpack-raises[0x{d.hex()}]', f'bytes 0x{d.hex()}: to_python_object(try_unpack=True) raises {type(r).__name__} '
+                          '(expected the bytes themselves when they are not readable as PACKed data)', {'type': {'prim': 'bytes'}, 'value': {'bytes': d.hex()}, 'try_unpack': True})
+        elif isinstance(r, bytes) and r != d and d[:1] != b'\x05':
+            ctx.violation(f'blind-unpack-other-bytes[0x{d.hex()}]', f'bytes 0x{d.hex()} shown as other bytes 0x{r.hex()}', {'value': {'bytes': d.hex()}})
+        elif d in want and r != want[d]:
+            ctx.violation(f'blind-unpack-content[0x{d.hex()}]', f'PACKed data 0x{d.hex()} shown as {r!r} (expected {want[d]!r})', {'value': {'bytes': d.hex()}})
+    for t, v, real, inst, idx in comp:
+        desc = {'type': G.ty_str(t), 'value': G.val_str(v), 'try_unpack': True}
+        ctx.case(desc, nontrivial=True)
+        ctx.count('try_unpack', 'composite')
+        try:
+            py = inst.to_python_object(try_unpack=True, lazy_diff=None)
+            got = ' '.join(G.py_toks(py))
+            # try_unpack only changes how the bytes leaves are shown (bls12_381 points are bytes objects that stay as they are)
+            if not any(x[0] == 's' and x[2] in ('bls12_381_g1', 'bls12_381_g2') for x in G.subterms(t)):
+                plain = inst.to_python_object(lazy_diff=None)
+                want_py = unpack_all(plain, blind_unpack)
+                if G.py_toks(want_py) != G.py_toks(py):
+                    ctx.violation(f'try-unpack-differs[{G.ty_str(t)} | {G.val_str(v)}]', f'{G.ty_str(t)}, value {G.val_str(v)}: to_python_object(try_unpack=True) = {py!r}, '
+                                  f'expected {want_py!r} (the plain object with every bytes leaf shown unpacked)', {'type': G.ty_expr(t), 'value': G.val_expr(t, v), 'try_unpack': True})
+        except Exception as e:
+            got = classify(e)
+            ctx.violation(f'try-unpack-raises[{G.ty_str(t)} | {G.val_str(v)}]', f'{G.ty_str(t)}, value {G.val_str(v)}: to_python_object(try_unpack=True) raises '
+                          f'{type(e).__name__}: {str(e)[:120]}', {'type': G.ty_expr(t), 'value': G.val_expr(t, v), 'try_unpack': True})
+        if model is not None and model[idx] != got:
+            ctx.mismatch('to-python-object-try-unpack', desc, got, model[idx])
